@@ -207,7 +207,12 @@ func c21Alphabet(m *sx.Model, stack string) []sx.Op {
 
 func init() {
 	sx.Register(&sx.Spec{Name: "C21", Buckets: []string{"bka", "bkb"}, Keys: []string{"k1", "k2"}, Alphabet: c21Alphabet, Under: c21Under,
-		Assert: map[string]bool{"exist": true, "content": true, "result": true, "meta": true, "outbox": true}, Extra: c21Converged, LenientResultVID: true,
+		Assert: map[string]bool{"exist": true, "content": true, "result": true, "meta": true, "version": true, "outbox": true}, Extra: c21Converged, LenientResultVID: true,
+		// the observation after a step drains the outbox: what was pending is part of the state
+		PreObserveKey: func(c *sx.StepCtx) string {
+			h, _ := sx.DumpHidden(context.Background(), c.W.RawDB, nil)
+			return h
+		},
 		WorkerStep: func(w *world.World, under storage.Storage) {
 			outbox.ProcessOnce(context.Background(), c21Current[w].Storage)
 		}})
@@ -220,6 +225,8 @@ func TestC21(t *testing.T) {
 	s := &sx.Search{Run: run, TestRun: "^TestWorker$", Spec: sx.SpecByName("C21"), Depth: 2, Stacks: []string{world.StackSQL}, Seeds: [][]sx.Op{
 		{},
 		{{Kind: "CreateBucket", B: "bka"}, {Kind: "Put", B: "bka", K: "k1", Body: "P5"}},
+		// bucket flushed, object writes still queued (a versioning switch must not overtake them)
+		{{Kind: "CreateBucket", B: "bka"}, {Kind: "Put", B: "bka", K: "k2", Body: "a"}, {Kind: "WorkerStep"}, {Kind: "Put", B: "bka", K: "k1", Body: "P5"}, {Kind: "Delete", B: "bka", K: "k2"}},
 	}}
 	if !quick() {
 		s.Depth = 4
